@@ -303,9 +303,13 @@ def _candidates(x):
                 yield x[len(x) // 2:]
 
 
-def minimise(case, bucket: str, judge, budget: int = 600):
-    """Greedy structural minimiser: keep a simpler variant while it stays in the same bucket."""
+def minimise(case, bucket: str, judge, budget: int = 600, seconds: float = 25.0):
+    """Greedy structural minimiser: keep a simpler variant while it stays in the same bucket.
+
+    Bounded by oracle evaluations and, as a safety net for slow judges, by wall time (a hit only
+    means a less minimal replay file, never a different verdict)."""
     judge = guarded(judge)
+    t_end = time.time() + seconds
 
     def still(c) -> bool:
         try:
@@ -321,7 +325,8 @@ def minimise(case, bucket: str, judge, budget: int = 600):
         improved = False
         for cand in _candidates(case):
             budget -= 1
-            if budget <= 0:
+            if budget <= 0 or time.time() > t_end:
+                budget = 0
                 break
             if still(cand):
                 case = cand
